@@ -7,6 +7,20 @@ PROP = "C19"
 def make_cases(rng, tier, n):
     cases, stats = [], {}
     for i in range(n):
+        if i % 50 == 6:
+            # MANY stages (a multiple of 256, and one more) whose outputs all share one object, and that object is damaged: every one
+            # of them fails; whatever the command counts, its exit status says so
+            ns = [256, 257, 512][(i // 50) % 3]
+            spec0 = "g:%d:%d" % (rng.randrange(1000), rng.choice([40, 700]))
+            c = dict(id="cor-%d" % i, cache="rel", timeout=300,
+                     init=[("file", b"m/%03d.bin" % j, spec0) for j in range(ns)],
+                     stages=[(b"m%03d.yaml" % j, dict(cmd=b"", wd=b".", out=[(b"m/%03d.bin" % j, "")])) for j in range(ns)])
+            c["ops"] = [("commit", "c", []), ("corrupt", "p" + s1.hx(b"m/000.bin"), "g:%d:%d" % (rng.randrange(7000, 9000), rng.choice([1, 40, 700]))),
+                        ("clone", []), ("checkout", "c", False, []), ("checkout", "c", False, [])]
+            c["kind"] = "flip-many-stages"
+            stats["kind_many_stages_%d" % ns] = 1
+            cases.append(c)
+            continue
         wide = (i % 10 == 4)
         c = gen.basic_project(rng, "cor-%d" % i, tier, stats=stats, allow_skip=False, allow_inputs=False, wide=wide)
         kind = rng.choice(["flip", "truncate", "extend", "truncate0", "other"])
